@@ -44,23 +44,6 @@ JUSTIFICATION = {
     "real_zero": "REAL.c, compiled only without NAN/INFINITY (not on this platform); volatile, never written",
 }
 
-def f48_region(t, env, named=True, seen=None):
-    """F48 (C08): a *named* `INTEGER (0..MAX)` gets a generated constraint function that calls itself;
-    asn_check_constraints on any value containing one overflows the stack.  Such jobs skip validation."""
-    seen = seen or set()
-    k = t["k"]
-    if k == "REF":
-        if t["name"] in seen: return False
-        return f48_region(env[t["name"]], env, True, seen | {t["name"]})
-    if k == "INTEGER":
-        c = t.get("cons")
-        return bool(named and c is not None and c["lo"] == 0 and c["hi"] is None)
-    if k in ("SEQUENCE", "SET", "CHOICE"):
-        return any(f48_region(c["type"], env, False, seen) for c in t["comps"])
-    if k in ("SEQUENCE OF", "SET OF"):
-        return f48_region(t["elem"], env, False, seen)
-    return False
-
 def make_jobs(ctx, m, nvals, bvals=None):
     """job lines `<Type> <syntax> <value>` for one module, honouring C01's known-finding regions."""
     env = dict(m["types"])
@@ -70,8 +53,6 @@ def make_jobs(ctx, m, nvals, bvals=None):
         feats = gfind.features(t, env)
         ok_syn = [s for s in SYNTAXES if not c01.skip_region(s, feats, skipped)]
         flag = ""
-        if f48_region(t, env):
-            flag = ":nocheck"; skipped["F48"] += 1
         vals = bvals[n] if bvals else vg.values(t, nvals)
         for v in vals:
             sx = genmod.val_sexp(t, v, env)
